@@ -310,6 +310,27 @@ func exerciseNode(it *simdjson.Iter, o exerciseOpts) error {
 			ai := a7.Iter()
 			for k := 0; k < 10000 && ai.Advance() != simdjson.TypeNone; k++ {
 			}
+			// the same calls one after the other on ONE Array value, in two orders: some of them advance the Array
+			// they are called on, and whatever they leave behind must not make a later call panic
+			a8 := *arr
+			a8.AsFloat()
+			a8.AsString()
+			a8.AsInteger()
+			a8.AsStringCvt()
+			a8.AsUint64()
+			a8.MarshalJSON()
+			a8.FirstType()
+			a8.AsFloat()
+			if o.allowInterface {
+				a8.Interface()
+			}
+			a8.ForEach(func(i simdjson.Iter) { i.Type() })
+			a9 := *arr
+			a9.AsUint64()
+			a9.AsStringCvt()
+			a9.AsInteger()
+			a9.AsString()
+			a9.DeleteElems(func(i simdjson.Iter) bool { return false })
 		})
 	}
 	if !ok {
